@@ -40,7 +40,7 @@ def run(ctx: Ctx):
         "floating-point rounding: implementation outputs compared with exact values at relative 1e-9 on dyadic inputs",
         "hook FORMAK_VERIF=1 exports the post-CSE program (python.BasicBlock._verif_prefix/_verif_body)",
     ]
-    jobs, meta = make_jobs(ctx, n_defs, n_points, ["model"])
+    jobs, meta = make_jobs(ctx, n_defs, n_points, ["model", "ekf_state"])
     res = ctx.run_impl_jobs("glue_py.py", jobs)
     dist = {"definitions": n_defs, "rational": 0, "transcendental": 0, "exported_programs": 0, "with_prefix": 0,
             "states": {}, "controls": {}, "calibrations": {}}
@@ -57,6 +57,9 @@ def run(ctx: Ctx):
                           {"definition": d, "cse": cse, "error": r["error"]}, key=f"compile-raises:{r['kind']}")
             continue
         by_def.setdefault(k, {})[cse] = r
+        if r.get("results_stable") is False:
+            ctx.violation("a state returned by the compiled model changed when the model was evaluated again (results share storage)",
+                          {"definition": d, "cse": cse, "points": job["points"]}, key="model-result-unstable")
         # ---- oracle: exact symbolic value by name
         for pi, (p, pr) in enumerate(zip(job["points"], r["points"])):
             nontrivial = len(d["state"]) >= 2 and (len(d["control"]) + len(d["calibration"])) >= 1
@@ -68,6 +71,13 @@ def run(ctx: Ctx):
                     ctx.violation(f"Model.model raised at a point where every update expression is defined: {pr['model']['_raised']}",
                                   {"definition": d, "cse": cse, "inputs": p}, key="model-raises")
                 continue
+            es = pr.get("ekf_state")
+            if es is not None and "_raised" not in es and "_raised" not in pr["model"]:
+                for name, exp in pr["oracle_model"].items():
+                    if exp is not None and not glue.close(es.get(name), exp):
+                        ctx.violation(f"ExtendedKalmanFilter.process_model (same compiled model) returns {es.get(name)!r} for state variable {name!r}, its update expression evaluates to {exp!r} (cse={cse})",
+                                      {"definition": d, "cse": cse, "inputs": p, "observed": es, "expected": pr["oracle_model"]}, key=f"ekf-state-value:cse={cse}")
+                        break
             for name, exp in pr["oracle_model"].items():
                 got = pr["model"].get(name)
                 if exp is None:
